@@ -1,4 +1,5 @@
 import sys
+# unmarshalUUID *UUID: null / empty keeps the previous UUID
 p=sys.argv[1]+'/marshal.go'; s=open(p).read()
 old="""		case *UUID:
 			*v = UUID{}
